@@ -506,7 +506,7 @@ class SetGen:
         if rng.random() < (0.7 if self.exotic_defvals else 0.35) and resolved and 'bits' not in (resolved if syn.get('user') else {}):
             local = [n[1] for n in nodes if n[0] == mname]
             d['defval'] = self.defval(resolved, local)
-            if self.exotic_defvals and not syn.get('user') and 'enum' in syn and rng.random() < 0.3:
+            if self.exotic_defvals and not syn.get('user') and 'enum' in syn and rng.random() < 0.6:
                 # an enumeration label spelled like a node this module imports: still a label, never that node's OID
                 imported = [sym for frm, syms in self.modules[mname]['imports'].items() for sym in syms
                             if sym[:1].islower() and '-' not in sym and sym not in [e[0] for e in syn['enum']]]
